@@ -116,7 +116,11 @@ class Contract:
 
     @property
     def qualname(self):
-        return self.target.split(":")[1]
+        return self.target.split(":")[1].split("@")[0]
+
+    @property
+    def code_target(self):
+        return self.target.split("@")[0]
 
 
 class Registry:
@@ -134,7 +138,7 @@ class Registry:
             q = c.qualname
             if "." in q:
                 cls, m = q.rsplit(".", 1)
-                self.by_method[(cls, m)] = c
+                self.by_method.setdefault((cls, m), []).append(c)
             else:
                 self.by_func.setdefault(q, []).append(c)
         else:
